@@ -877,8 +877,10 @@ func (g *graph) compile(ctx context.Context, opt *graphCompileOptions) (*composa
 		}
 		r.checkPointer = newCheckPointer(inputPairs, outputPairs, mappedEdges, opt.checkPointStore)
 
-		r.interruptBeforeNodes = opt.interruptBeforeNodes
-		r.interruptAfterNodes = opt.interruptAfterNodes
+		// the runner's own copies: the option keeps the slice the caller handed over, and the interrupt points of a
+		// compiled graph must not move when the caller reuses it
+		r.interruptBeforeNodes = append([]string(nil), opt.interruptBeforeNodes...)
+		r.interruptAfterNodes = append([]string(nil), opt.interruptAfterNodes...)
 		r.options = *opt
 	}
 
